@@ -37,6 +37,10 @@ pub struct LiqCase {
     /// the admin sets the collateral bank reduce-only after the borrow (its deposits still count at maintenance)
     #[serde(default)]
     pub reduce_only_collateral: bool,
+    /// the oracle of the EXTRA collateral bank (neither seized nor repaid) is stale when the liquidation is attempted:
+    /// the liquidatee's maintenance health cannot be assessed, so the liquidation must not succeed
+    #[serde(default)]
+    pub stale_extra: bool,
 }
 
 pub fn case_strategy() -> impl Strategy<Value = LiqCase> {
@@ -49,9 +53,9 @@ pub fn case_strategy() -> impl Strategy<Value = LiqCase> {
         prop_oneof![1 => Just(0u32), 2 => 1u32..65_536, 3 => 65_536u32..400_000],
         prop_oneof![1 => Just(0u64), 2 => 1_000_000u64..1_000_000_000_000_000],
         (prop_oneof![2 => 1u64..1000, 2 => 1000u64..1_000_000_000_000, 6 => 1u64..=65_536, 2 => 0u64..5], 0u8..3),
-        (prop_oneof![Just(0u32), 1u32..90, 1000u32..20_000_000], prop::bool::weighted(0.35), prop::bool::weighted(0.15)),
+        (prop_oneof![Just(0u32), 1u32..90, 1000u32..20_000_000], prop::bool::weighted(0.35), prop::bool::weighted(0.15), prop::bool::weighted(0.3)),
     )
-        .prop_map(|(mut banks, collateral, borrow_frac, extra_collateral, target_pm, liq_deposit_frac, liq_collateral, (q, qr), (wait, emode, reduce_only_collateral))| {
+        .prop_map(|(mut banks, collateral, borrow_frac, extra_collateral, target_pm, liq_deposit_frac, liq_collateral, (q, qr), (wait, emode, reduce_only_collateral, stale_extra))| {
             // bank 0 = collateral (must carry weight), bank 1 = liability (default tag), bank 2 = extra collateral
             let emode = emode && !banks[1].emode_entries.is_empty();
             let boosted_tag = banks[1].emode_entries.first().map(|e| e.tag).unwrap_or(0);
@@ -81,7 +85,7 @@ pub fn case_strategy() -> impl Strategy<Value = LiqCase> {
                 // keep confidence below the 10% usability bound
             }
             let q_rel = if q <= 65_536 && qr == 1 { 1 } else if q < 5 && qr == 2 { 2 } else { 0 };
-            LiqCase { spec: WorldSpec { banks, n_users: 3, program_fees_enabled: false, ..WorldSpec::default() }, collateral, borrow_frac, extra_collateral, target_pm, liq_deposit_frac, liq_collateral, q, q_rel, wait, emode, reduce_only_collateral }
+            LiqCase { spec: WorldSpec { banks, n_users: 3, program_fees_enabled: false, ..WorldSpec::default() }, collateral, borrow_frac, extra_collateral, target_pm, liq_deposit_frac, liq_collateral, q, q_rel, wait, emode, reduce_only_collateral, stale_extra: stale_extra && extra_collateral > 0 }
         })
 }
 
@@ -96,6 +100,7 @@ pub struct Stats {
     pub frontier: bool,
     pub max_width: f64,
     pub pre_health_sign: i8,
+    pub stale_extra: bool,
 }
 
 fn pos_bits(vm: &Vm, acct: &Pubkey, bank: &Pubkey) -> (i128, i128) {
@@ -309,6 +314,14 @@ pub fn run_case(c: &LiqCase, stats: &mut Stats) -> Result<(), (String, String)> 
             }
         }
     }
+    // the extra collateral's oracle goes stale (only Pyth / Switchboard feeds can)
+    if c.stale_extra && c.extra_collateral > 0 {
+        let o = w.banks[xb].spec.oracle.clone();
+        if let Some(a) = o.account(w.vm.now() - o.max_age as i64 - 1) {
+            w.vm.set(w.banks[xb].oracle_key, a);
+            stats.stale_extra = true;
+        }
+    }
     // the liquidation
     let pos_val = {
         let (a, _) = pos_bits(&w.vm, &le.accts[0], &w.banks[ab].key);
@@ -390,6 +403,9 @@ pub fn run(ctx: &Ctx) -> Report {
                 }
                 if st.steered {
                     rep.label("steered");
+                }
+                if st.stale_extra {
+                    rep.label("extra-collateral-oracle-stale");
                 }
                 if st.success {
                     rep.label("liquidation-succeeded");
